@@ -205,6 +205,10 @@ func (w *world) apply(ws []string) bool {
 			}
 		}
 		s.Sup.Beh[ws[1]] = b
+	case "execfail": // execfail <base> on|off: the supervisor's Exec for that base name fails / works again
+		b := s.Sup.Beh[ws[1]]
+		b.ExecFails = ws[2] == "on"
+		s.Sup.Beh[ws[1]] = b
 	case "release": // release <base>: a held Exec call returns
 		if !s.Sup.ReleaseExec(ws[1]) {
 			return false
